@@ -37,6 +37,9 @@ fn receivers(l: usize) -> Vec<String> {
     let mut v = strings_over(&SIGMA, l);
     v.extend(strings_over(&["a", "\n", "\r\n", "\r"], l).into_iter().filter(|s| s.contains('\r')));
     // "\r" + "\n" and "\r\n" spell the same string: keep the first occurrence
+    // multi-character special casing: final sigma, titlecase digraph,
+    // one-to-many upper-casing, dotted capital I, ligature
+    v.extend(["ΑΣ", "ΑΣ ", "ǅungla", "ǅUNGLA", "ß", "ŉ", "İ", "ǰ", "ﬃ"].map(String::from));
     let mut seen = BTreeSet::new();
     v.retain(|s| seen.insert(s.clone()));
     v
@@ -112,6 +115,12 @@ fn domain(p: P, tier: Tier) -> Vec<V> {
             strs(v)
         }
         P::BufChar => SIGMA.iter().map(|s| V::Char(s.chars().next().unwrap())).collect(),
+        // quick: [c], a+c, c+B for the case mappings; [c], c+a+c for the
+        // trims; [c] for the lengths. thorough: all four plain contexts for
+        // all of them, plus c+a+c and the space / newline padded ones for the trims
+        P::CtxCase => ints(tier.pick(vec![0, 1, 2], vec![0, 1, 2, 3])),
+        P::CtxTrim => ints(tier.pick(vec![0, 4], vec![0, 1, 2, 3, 4, 5, 6])),
+        P::CtxLen => ints(tier.pick(vec![0], vec![0, 1, 2, 3])),
         P::UnusedStr => vec![V::str("")],
         P::UnusedChar => vec![V::Char('a')],
         P::ListU64 | P::ListStr | P::ElemU64 | P::ElemStr | P::ListIdx => {
@@ -297,7 +306,7 @@ impl Check for C17 {
         let mut shapes: HashMap<&'static str, u64> = HashMap::new();
         let mut sampled = false;
         for sub in s0..s1 {
-            let args = plan::args_at(doms, sub);
+            let args = op.real_args(plan::args_at(doms, sub));
             let expected = match vcore::util::catch(|| op.expected(&args)) {
                 Ok(Some(e)) => e,
                 Ok(None) => unreachable!("preflight: every op has a reference"),
@@ -395,7 +404,7 @@ impl Check for C17 {
         if sub == SUB_SETUP {
             return json!({"kind": "setup", "builtin": op.name, "form": op.form, "script": op.script});
         }
-        let args = plan::args_at(&tab.doms[opi], sub);
+        let args = op.real_args(plan::args_at(&tab.doms[opi], sub));
         plan::case_json(op, &args, "script")
     }
 
@@ -449,6 +458,8 @@ impl Check for C17 {
                 "receiver_max_symbols": max_syms(cfg.tier),
                 "receiver_max_symbols_replace": max_syms_replace(cfg.tier),
                 "second_string_max_symbols": 2,
+                "unicode_sweep": {"code_points": 1_112_064, "contexts": ops::CONTEXTS,
+                    "builtins": ["String.to_lowercase", "String.to_uppercase", "String.trim", "String.trim_start", "String.trim_end", "StringChars.len", "StringBytes.len"]},
                 "domain_sizes": Value::Object(sizes),
                 "builtins": names.len(),
                 "builtin_forms": tab.ops.len(),
